@@ -126,6 +126,12 @@ def _normalize_pad_width(
                         " sequence of pad widths along each"
                         " direction.")
 
+    if (any(before < 0 or after < 0 for before, after in processed_pad_widths)
+            or (isinstance(pad_width, INT_CLASSES) and pad_width < 0)
+            or (isinstance(pad_width, abc.Sequence)
+                and any(isinstance(k, INT_CLASSES) and k < 0 for k in pad_width))):
+        raise ValueError("pad widths cannot be negative")
+
     return processed_pad_widths
 
 
